@@ -30,11 +30,13 @@ pub struct Domain {
     pub big_to_nonreaders: bool,
     /// probability that a send carries descriptors (SCM_RIGHTS)
     pub fds: f64,
+    /// requests() is sometimes called while nothing is ready and interrupted by a signal (EINTR)
+    pub eintr: bool,
 }
 
 pub fn domain(prop: &str, small: bool) -> Domain {
     let d = Domain { name: "C08", nclients: (1, 4), good: 99, steps: 60, kill: false, flush: true, setlimit: false,
-                     big_pad: false, close_weight: 0, eager_poll: 0.5, pipeline: 0.2, respond_weight: 5, big_to_nonreaders: false, fds: 0.0 };
+                     big_pad: false, close_weight: 0, eager_poll: 0.5, pipeline: 0.2, respond_weight: 5, big_to_nonreaders: false, fds: 0.0, eintr: true };
     match prop {
         "C07" => Domain { name: "C07", nclients: (3, 5), good: 0, close_weight: 6, flush: true, ..d },
         "C08" => d,
@@ -262,6 +264,8 @@ pub fn history(dom: &Domain, seed: u64, hist: u64, sock_dir: &str, out: &mut dyn
             cands.push((4, json!({"e": "poll"})));
         } else if rng.gen_bool(0.05) {
             cands.push((1, json!({"e": "poll"}))); // logged as not called: readiness flag only
+        } else if dom.eintr && !dom.kill && rng.gen_bool(0.15) {
+            cands.push((2, json!({"e": "poll_eintr"}))); // a blocking requests() interrupted by a signal
         }
         if rng.gen_bool(if dom.fds > 0.0 { 0.3 } else { 0.03 }) {
             cands.push((1, json!({"e": "fdcount"})));
